@@ -24,6 +24,9 @@ var InstallTracer func(func(LexEvent))
 
 const InputName = "in.yang"
 
+// no text of the checks comes near this many channel events
+const maxEvents = 200000
+
 // Outcome of one guarded parse.Parse call.
 type Outcome struct {
 	Ret      string // "ok" (nil error), "err", "panic", "hang"
@@ -37,6 +40,7 @@ type Outcome struct {
 	Line     int
 	Col      int
 	NLexers  int
+	Overflow bool // more than maxEvents channel events: the rest was not recorded
 	PanicVal string
 }
 
@@ -59,11 +63,16 @@ func Guarded(text string, watchdog time.Duration, wantEvents bool) Outcome {
 	var o Outcome
 	var mu sync.Mutex
 	var events []LexEvent
+	overflow := false
 	exitSeen := make(chan struct{}, 4)
 	if wantEvents && InstallTracer != nil {
 		InstallTracer(func(e LexEvent) {
 			mu.Lock()
-			events = append(events, e)
+			if len(events) < maxEvents {
+				events = append(events, e)
+			} else {
+				overflow = true
+			}
 			mu.Unlock()
 			if e.Ev == "exit" {
 				select {
@@ -106,6 +115,9 @@ func Guarded(text string, watchdog time.Duration, wantEvents bool) Outcome {
 	case <-time.After(watchdog):
 		o.Ret = "hang"
 		mu.Lock()
+		if len(events) > 300 { // a spinning lexer emits without end: the beginning is enough to place the hang
+			events = events[:300]
+		}
 		o.Events = append([]LexEvent(nil), events...)
 		mu.Unlock()
 		return o
@@ -131,6 +143,7 @@ func Guarded(text string, watchdog time.Duration, wantEvents bool) Outcome {
 	}
 	mu.Lock()
 	o.Events = append([]LexEvent(nil), events...)
+	o.Overflow = overflow
 	mu.Unlock()
 	if o.Ret == "err" {
 		if m := locRe.FindStringSubmatch(o.Err); m != nil {
